@@ -227,3 +227,28 @@ def stores_attr(stmt: ast.AST, attr: str) -> list[tuple[ast.AST, ast.AST | None]
         if isinstance(stmt.target, ast.Attribute) and stmt.target.attr == attr:
             out.append((stmt.target, stmt.value))
     return out
+
+
+def dict_writes(nodes, recv: str) -> list[tuple[ast.AST | None, ast.AST, ast.AST]]:
+    """Writes to the dict `recv` (text of the receiver) found in `nodes`, in order: (key node | None, value node, site).
+    ``recv[k] = v``, ``recv.update({k: v})`` and ``recv.update(k=v)`` are the same thing; ``recv.update(other)`` has key None."""
+    if isinstance(nodes, ast.AST):
+        nodes = [nodes]
+    out = []
+    for root in nodes:
+        for n in ast.walk(root):
+            if isinstance(n, ast.Assign):
+                for t in n.targets:
+                    if isinstance(t, ast.Subscript) and ast.unparse(t.value) == recv:
+                        out.append((t.slice, n.value, n))
+            elif isinstance(n, ast.Call) and isinstance(n.func, ast.Attribute) and n.func.attr == "update" and ast.unparse(n.func.value) == recv:
+                for a in n.args:
+                    if isinstance(a, ast.Dict):
+                        for k, v in zip(a.keys, a.values):
+                            out.append((k, v, n))
+                    else:
+                        out.append((None, a, n))
+                for k in n.keywords:
+                    out.append((ast.Constant(value=k.arg) if k.arg else None, k.value, n))
+    out.sort(key=lambda t: (getattr(t[2], "lineno", 0), getattr(t[2], "col_offset", 0)))
+    return out
